@@ -1,5 +1,66 @@
-(* C01 - statements only. *)
-Require Import List ZArith. Require Import IW.KV.Node IW.KV.Node_proofs.
-Theorem C01_insert_length : forall K V (n : recs K V) i e, length (insert_at K V n i e) = S (length n).
-Proof. exact insert_at_length. Qed.
-Print Assumptions C01_insert_length.
+(* C01 - KV store behaves as an ordered map for every operation history.  Statements only. *)
+Require Import List ZArith Lia. Import ListNotations.
+Require Import IW.KV.Node IW.KV.Spec IW.KV.Node_proofs IW.KV.Keys IW.KV.Inst IW.KV.Keys_proofs IW.Gen.Facts.
+
+(* For EVERY history of put (plain, no-overwrite, with an update function standing for increment / put-handler),
+   get and delete, every choice of skip-list levels (they do not enter this layer) and every comparator that is a
+   total preorder, the chain of nodes returns what the ordered association list returns, flattens to it, and keeps
+   its structural invariant (nodes non-empty, at most IDXNUM records, globally sorted). *)
+Theorem C01_kv_refines_map :
+  forall (K V : Type) (cmp : K -> K -> comparison) (IDXNUM PIVOT : nat) (upd : V -> V -> option V),
+    (forall a b c : K, cmp a b = Lt -> cmp b c = Eq -> cmp a c = Lt) ->
+    (forall a b : K, cmp a b = CompOpp (cmp b a)) ->
+    (forall a b c : K, cmp a b = Lt -> cmp b c = Lt -> cmp a c = Lt) ->
+    1 <= PIVOT < IDXNUM ->
+    forall (ops : list (op K V)) (st : nat * chain K V),
+      NodeInv K V cmp IDXNUM (snd st) ->
+      let '(st', outs) := run K V cmp IDXNUM PIVOT upd st ops in
+      let '(l', souts) := spec_run K V cmp upd (flat K V (snd st)) ops in
+      flat K V (snd st') = l' /\ outs = souts /\ NodeInv K V cmp IDXNUM (snd st').
+Proof. exact kv_refines_map. Qed.
+Print Assumptions C01_kv_refines_map.
+
+(* The same for the comparator the store really uses on plain byte keys, with the node size and the split pivot
+   taken from the current source (Gen/Facts.v): no hypothesis on the comparator is left. *)
+Theorem C01_kv_refines_map_bytes :
+  forall (upd : value -> value -> option value) (ops : list (op key value)) (st : nat * chain key value),
+    NodeInv key value (cmp_of plain) NIDX (snd st) ->
+    let '(st', outs) := run key value (cmp_of plain) NIDX NPIVOT upd st ops in
+    let '(l', souts) := spec_run key value (cmp_of plain) upd (flat key value (snd st)) ops in
+    flat key value (snd st') = l' /\ outs = souts /\ NodeInv key value (cmp_of plain) NIDX (snd st').
+Proof.
+  intros upd. apply kv_refines_map.
+  - exact plain_cmp_lt_eq.
+  - exact plain_cmp_antisym.
+  - exact plain_cmp_trans.
+  - unfold NPIVOT, NIDX, SPLIT_PIVOT, KVBLK_IDXNUM. vm_compute. lia.
+Qed.
+Print Assumptions C01_kv_refines_map_bytes.
+
+(* plain byte keys compare equal only when identical *)
+Theorem C01_plain_keys_eq_iff_identical : forall a b : key, cmp_of plain a b = Eq <-> fst a = fst b.
+Proof. exact plain_cmp_eq_iff. Qed.
+Print Assumptions C01_plain_keys_eq_iff_identical.
+
+(* A call that reports an error leaves the contents unchanged. *)
+Theorem C01_error_leaves_state :
+  forall (K V : Type) (cmp : K -> K -> comparison) (IDXNUM PIVOT : nat) (upd : V -> V -> option V)
+         (st : nat * chain K V) (k : K) (v : V) (noover newok : bool),
+    let '(st', x) := step K V cmp IDXNUM PIVOT upd st (OpPut K V k v noover newok) in
+    x <> OutPut V POk -> snd st' = snd st.
+Proof. exact error_leaves_state. Qed.
+Print Assumptions C01_error_leaves_state.
+
+(* Non-vacuity: the empty store satisfies the invariant, and a concrete history that splits a node (40 inserts into
+   nodes of at most 32 records) runs through the model and ends in a 2-node chain holding 39 records. *)
+Example C01_inv_init : NodeInv key value (cmp_of plain) NIDX [].
+Proof. split; constructor. Qed.
+
+Definition ex_ops : list (op key value) :=
+  map (fun i => OpPut key value ([Z.of_nat i], 0%Z) [7%Z] false true) (seq 1 40)
+  ++ [OpDel key value ([5%Z], 0%Z); OpGet key value ([6%Z], 0%Z)].
+Example C01_history_splits :
+  let '(st, outs) := run key value (cmp_of plain) NIDX NPIVOT (fun _ v => Some v) (1, []) ex_ops in
+  (length (snd st), length (flat key value (snd st)), last outs (OutDel value false))
+  = (2, 39, OutGet value (Some [7%Z])).
+Proof. vm_compute. reflexivity. Qed.
